@@ -5,12 +5,12 @@
    mode "win": every window <<a,b,c,d>> with 0 <= a < b <= NI, 0 <= c < d <= NX and every pattern of absent bounds.
    mode "det": detection of 2-D / regular / irregular for small sources. *)
 EXTENDS SgzIngest, TLC
-CONSTANTS MaxI, MaxX, Zero
+CONSTANTS MaxI, MaxX, Zero, ModeSet
 VARIABLES mode, ni, nx, sel, par
 ivars == <<mode, ni, nx, sel, par>>
 Starts == IF Zero THEN {0, -2} ELSE {-3, 1, 100}
 Steps == {1, 2, 3}
-Init == /\ mode \in {"irr", "win", "det"} /\ ni \in 2..MaxI /\ nx \in 2..MaxX /\ sel = {} /\ par = <<>>
+Init == /\ mode \in ModeSet /\ ni \in 2..MaxI /\ nx \in 2..MaxX /\ sel = {} /\ par = <<>>
 Cells == (0..(ni - 1)) \X (0..(nx - 1))
 Next == /\ par = <<>>
         /\ \/ /\ mode = "irr"
